@@ -140,6 +140,20 @@ def install_extensions(T):
         return T.Sym(e, v)
     T.Sym.arctan2 = sym_arctan2
 
+    def np_array(obj, dtype=None, *args, **kw):
+        # np.array(list of Sym / object arrays, dtype=float) must stay symbolic
+        if T._CURRENT[0] is not None and dtype in (float, np.float64, np.double):
+            try:
+                probe = np.array(obj, dtype=object)
+            except ValueError:
+                probe = None
+            if probe is not None and any(isinstance(el, T.Sym) for el in probe.ravel()):
+                return probe
+        if dtype is None:
+            return np.array(obj, *args, **kw)
+        return np.array(obj, dtype, *args, **kw)
+    T.NpProxy.array = staticmethod(np_array)
+
 
 # ---------------------------------------------------------------------------
 # emitter (extends tools/regen/emit_coq.py: real powers, strict path conditions)
@@ -171,7 +185,7 @@ def term(root, used=None, share=True):
         elif op == 'pow':
             k = n.args[1]
             if k != int(k):
-                s = '(Rpower %s %s)' % (go(n.args[0]), EC.const_term(k, used))
+                s = '(rpow %s %s)' % (EC.const_term(k, used), go(n.args[0]))
             elif k >= 0:
                 s = '(%s ^ %d)' % (go(n.args[0]), k)
             else:
@@ -192,15 +206,18 @@ def term(root, used=None, share=True):
     return ''.join('let %s := %s in\n    ' % (nm, s) for nm, s in lets) + body
 
 
-def kernel_file(trace, kern):
-    """text of Gen_kern_<kern>.v and the info dict (params, defs, path ...)"""
+def kernel_file(trace, kern, guards=()):
+    """text of Gen_kern_<kern>.v and the info dict (params, defs, path ...).
+    guards: domain conditions (Coq text over the parameters) that the implementation does not
+    test (it relies on floats never hitting them exactly, or masks via isnan/isinf of the result,
+    which the tracer cannot log); they are added to the path condition and reported."""
     from . import emit_coq as EC
     used = set()
     params = EC.params_of(trace)
     plist = '(%s : R)' % ' '.join(params) if params else ''
     lines = ['(* GENERATED on every run by tools/regen/tracer_c06.py from the CURRENT polymath source.',
              '   Do not edit. Kernel: %s. *)' % kern,
-             'From Coq Require Import Reals.', 'Local Open Scope R_scope.', '']
+             'From Coq Require Import Reals.', 'From PM Require Import C06Defs.', 'Local Open Scope R_scope.', '']
     defs = []
     for group, idx, e, v in trace.outputs:
         nm = EC.def_name(kern, group, idx)
@@ -213,7 +230,7 @@ def kernel_file(trace, kern):
         conds.append(c)
         if STRICT[(op, outcome)] == '=':
             closed.append(c)
-    conds = list(dict.fromkeys(conds))
+    conds = list(dict.fromkeys(conds + list(guards)))
     lines.append('')
     lines.append('Definition %s_path %s : Prop :=\n    %s.' %
                  (kern, plist, ' /\\\n    '.join(conds) if conds else 'True'))
@@ -416,7 +433,7 @@ for _nm, _seed in (('sin', 0.7), ('cos', 0.7), ('tan', 0.7), ('arcsin', 0.4), ('
                    ('sqrt', 0.7), ('log', 0.7), ('exp', 0.7), ('reciprocal', 0.7)):
     def _k(io, nm=_nm, seed=_seed):
         io.unary(lambda a: getattr(a, nm)(), _S(io, 'x', seed))
-    kernel(_nm)(_k)
+    kernel(_nm, guards=['(cos x <> 0)'] if _nm == 'tan' else [])(_k)
 
 for _nm, _seed in (('abs_pos', 0.7), ('abs_neg', -0.7)):
     def _k(io, seed=_seed):
@@ -428,7 +445,7 @@ for _k_, _tag in ((2, 'pow2'), (3, 'pow3'), (4, 'pow4'), (-1, 'powm1'), (5, 'pow
                   (2.75, 'pow2p75'), (0, 'pow0'), (1, 'pow1')):
     def _k(io, k=_k_):
         io.unary(lambda a: a ** k, _S(io, 'x', 0.7))
-    kernel(_tag)(_k)
+    kernel(_tag, guards=['(x <> 0)'] if (_k_ < -1 and _k_ == int(_k_)) else [])(_k)
 
 for _nm, _sy, _sx in (('arctan2_xpos', 0.7, 1.3), ('arctan2_ypos', 0.7, -1.3), ('arctan2_yneg', -0.7, -1.3)):
     def _k(io, sy=_sy, sx=_sx):
@@ -901,7 +918,7 @@ def main(argv):
                 io = SymIO(tr, Pm)
                 fn(io)
             bad = tr.sanity()
-            text, info = kernel_file(tr, 'C06_' + name)
+            text, info = kernel_file(tr, 'C06_' + name, opt.get('guards', ()))
             lemmas = obligations(name, info, io, opt, tr.outputs, tr.masks)
             with open(os.path.join(gen, 'Gen_kern_C06_%s.v' % name), 'w') as f:
                 f.write(text)
@@ -918,7 +935,7 @@ def main(argv):
                 'inputs': tr.inputs, 'stubs': tr.stubs,
                 'outputs': [[g, list(idx), T.evaluate(e, env, memo), v] for g, idx, e, v in tr.outputs],
                 'masks': tr.masks, 'path': info['path'], 'n_hyps': info['n_hyps'],
-                'closed_conditions': info['closed_conditions'],
+                'closed_conditions': info['closed_conditions'], 'guards': list(opt.get('guards', ())),
                 'irrational_constants': info['irrational_constants'],
                 'sanity_bad': [[g, list(i), v, w] for g, i, v, w in bad],
                 'lemmas': [l[0] for l in lemmas],
